@@ -404,6 +404,16 @@ def m_int_max_min(ex, st, callee, args, dty, m):
     return I(z3.If(pick_a, a.bv, b.bv), a.signed)
 
 
+@model(r"<&?bool as (?:std::ops::|core::ops::)?Not>::not$")
+def m_bool_not(ex, st, callee, args, dty, m):
+    a = deref(ex, args[0]) if isinstance(args[0], Ref) else args[0]
+    if isinstance(a, I):
+        a = a.bv != 0
+    if not z3.is_bool(a):
+        return NotImplemented
+    return z3.Not(a)
+
+
 # ---------------------------------------------------------------- arithmetic operator traits on primitive integers (`x -= *y`, `a + &b`)
 @model(r"<&?(u8|u16|u32|u64|u128|usize) as (?:std::ops::|core::ops::)?(Add|Sub|Mul)(Assign)?<&?\1>>::(?:add|sub|mul)(?:_assign)?$")
 def m_int_op_trait(ex, st, callee, args, dty, m):
@@ -631,6 +641,29 @@ def m_vec_remove(ex, st, callee, args, dty, m):
     alts = [(idx.bv == k, ("__thunk__", take, (r, k))) for k in range(n)]
     alts.append((z3.UGE(idx.bv, n), PathEnd("panic", "Vec::remove index out of bounds (len %d)" % n)))
     return ("__fork__", alts)
+
+
+@model(r"Vec::<(.*)>::truncate$")
+def m_vec_truncate(ex, st, callee, args, dty, m):
+    r, n = args
+    v = deref(ex, r)
+    if isinstance(v, Bytes) and isinstance(n, I):
+        v.len = I(z3.simplify(z3.If(z3.ULT(n.bv, v.len.bv), n.bv, v.len.bv)))
+        return UNIT
+    if not isinstance(v, Seq) or not isinstance(n, I):
+        return NotImplemented
+    k = z3.simplify(n.bv)
+    if z3.is_bv_value(k):
+        del v.items[k.as_long():]
+        return UNIT
+
+    def cut(ex_, st_, arg):
+        ref, c = arg
+        seq = deref(ex_, ref)
+        del seq.items[c:]
+        return UNIT
+    ln = len(v.items)
+    return ("__fork__", [(n.bv == c, ("__thunk__", cut, (r, c))) for c in range(ln)] + [(z3.UGE(n.bv, ln), UNIT)])
 
 
 @model(r"Vec::<(.*)>::swap_remove$")
